@@ -290,6 +290,7 @@ def T.decEq : (a b : T) → Decidable (a = b)
           | isFalse h => isFalse (by intro e; cases e; exact h rfl)
         else isFalse (by intro e; cases e; exact hi rfl)
       else isFalse (by intro e; cases e; exact hc rfl)
+termination_by structural a => a
 def Item.decEq : (a b : Item) → Decidable (a = b)
   | .data k1 j1, .data k2 j2 =>
       if hk : k1 = k2 then
@@ -310,6 +311,7 @@ def Item.decEq : (a b : Item) → Decidable (a = b)
   | .data _ _, .child _ _ | .data _ _, .children _ _ => isFalse (by intro e; cases e)
   | .child _ _, .data _ _ | .child _ _, .children _ _ => isFalse (by intro e; cases e)
   | .children _ _, .data _ _ | .children _ _, .child _ _ => isFalse (by intro e; cases e)
+termination_by structural a => a
 def Item.decEqL : (a b : List Item) → Decidable (a = b)
   | [], [] => isTrue rfl
   | [], _ :: _ => isFalse (by intro e; cases e)
@@ -318,6 +320,7 @@ def Item.decEqL : (a b : List Item) → Decidable (a = b)
       | isTrue h1, isTrue h2 => isTrue (by rw [h1, h2])
       | isFalse h, _ => isFalse (by intro e; cases e; exact h rfl)
       | _, isFalse h => isFalse (by intro e; cases e; exact h rfl)
+termination_by structural a => a
 def T.decEqL : (a b : List T) → Decidable (a = b)
   | [], [] => isTrue rfl
   | [], _ :: _ => isFalse (by intro e; cases e)
@@ -326,6 +329,7 @@ def T.decEqL : (a b : List T) → Decidable (a = b)
       | isTrue h1, isTrue h2 => isTrue (by rw [h1, h2])
       | isFalse h, _ => isFalse (by intro e; cases e; exact h rfl)
       | _, isFalse h => isFalse (by intro e; cases e; exact h rfl)
+termination_by structural a => a
 end
 instance : DecidableEq T := T.decEq
 instance : DecidableEq Item := Item.decEq
